@@ -524,6 +524,9 @@ static void check_skipper(cfg_t *ctx, int act_kind, int act_state, struct pstate
 	const int done_state = nested ? 15 : 0;
 
 	(void)ctx;
+#if defined(CHK_C02) && LEVEL >= 100000 && PSTATE == 12
+	V_ASSERT(n_lex_nested == 0, "[C02] nesting is bounded: at depth 100000 the skipper does not recurse into yet another unknown section (stack)");
+#endif
 #if defined(CHK_C15) && !defined(CHK_C12) && PSTATE >= 10
 	if (T == CFGT_COMMENT) { /* comments are transparent inside an undeclared item as well */
 		V_ASSERT(act_kind == X_CONT && act_state == PSTATE && *ps->ignore == pre_ignore, "[C15] a comment token inside an undeclared item is skipped");
@@ -565,16 +568,13 @@ static void check_skipper(cfg_t *ctx, int act_kind, int act_state, struct pstate
 	else
 		V_ASSERT(act_kind == X_ERR && n_err >= 1, "[C12] after a title only '{' is well-formed");
 #elif PSTATE == 12
-#if defined(CHK_C02) && LEVEL >= 100000
-	V_ASSERT(n_lex_nested == 0, "[C02] nesting is bounded: at depth 100000 the skipper does not recurse into yet another unknown section (stack)");
-#endif
 	if (T == '}') {
 		V_ASSERT(n_lex_nested == 0, "[C12] an empty undeclared section consumes nothing beyond its closing brace");
 		if (nested)
 			V_ASSERT(act_kind == X_CONT && act_state == 15, "[C12] an empty undeclared section inside a skipped body is one complete item");
 		else
 			V_ASSERT(act_kind == X_CONT && act_state == 0 && *ps->ignore == 0, "[C12] an empty undeclared section is skipped as one complete item");
-	} else if (T == CFGT_STR) {
+	} else if (T == CFGT_STR && LEVEL < 1000) {
 		V_ASSERT(n_lex_nested >= 1, "[C12] the body of an undeclared section is skipped by a nested invocation");
 	}
 #elif PSTATE == 13
